@@ -18,6 +18,7 @@ import (
 	"strings"
 	"sync"
 	"syscall"
+	"time"
 
 	"github.com/jamf/regatta/storage/kv"
 
@@ -149,18 +150,24 @@ func main() {
 		r.Finish()
 	}
 
-	n := r.Pick(1500, 100000)
+	walls := map[string]float64{} // informational only
+	t0 := time.Now()
+	lap := func(name string) { walls[name] = time.Since(t0).Seconds(); t0 = time.Now() }
+	n := r.Pick(1500, 50000)
 	parallel(n, func(i int) { runSeq(r, caseID{Layer: 1, Seed: r.Seed*1_000_003 + int64(i)}) })
-
-	nc := r.Pick(2, 20)
+	lap("layer1_sequences")
+	nc := r.Pick(2, 12)
 	for i := 0; i < nc; i++ {
 		runConc(r, caseID{Layer: 3, Seed: r.Seed*5_000_011 + int64(i)})
 	}
+	lap("layer3_concurrent_lfsm")
 	ns := r.Pick(1, 30)
 	for i := 0; i < ns; i++ {
 		runStoreCase(r, caseID{Layer: 2, Seed: r.Seed*9_000_011 + int64(i)})
 	}
+	lap("layer2_raftstore")
 	scanRaceLogs(r)
+	r.Extra("wall_s_by_layer", walls)
 
 	r.FloorNontrivial(int64(r.Pick(150, 10000)))
 	r.FloorCount("updates", int64(r.Pick(30000, 2000000)))
